@@ -353,9 +353,68 @@ def eval_case(c):
     return (not msgs), "; ".join(msgs[:3])
 
 
+def eval_struct(c):
+    """full-mode reconstruction and the normalized switches for Dataset / list inputs and for scalar mode selections"""
+    rng = np.random.default_rng(c["seed"])
+    nn = 12
+    t = np.arange(nn)
+    def fld(shape, names, off):
+        dims = ("time",) + names
+        co = {"time": t}
+        co.update({n: np.arange(k) * 1.5 + i for i, (n, k) in enumerate(zip(names, shape))})
+        v = rng.standard_normal((nn,) + shape) * rng.uniform(0.5, 2.0, shape) + off
+        return xr.DataArray(v * (1 + 0.3j) + 0.2j * rng.standard_normal((nn,) + shape) if c["cplx"] else v, dims=dims, coords=co)
+    a, b, d = fld((2, 2), ("lat", "lon"), 3.0), fld((3,), ("x",), -1.0), fld((2,), ("y",), 0.5)
+    if c["struct"] == "list":
+        D = [a, b, d][: c["nitems"]]
+    elif c["struct"] == "dataset":
+        D = xr.Dataset({"a": a, "b": a * 0.5 + 1.0})
+    else:
+        D = a
+    Model = xeofs.single.ComplexEOF if c["cplx"] else xeofs.single.EOF
+    nfeat = {"da": 4, "dataset": 8}.get(c["struct"], [4, 7, 9][c["nitems"] - 1])
+    m = Model(n_modes=min(nn, nfeat), center=c["center"], standardize=c["std"], solver="full").fit(D, "time")
+    msgs = []
+
+    def cmp(rec, ref, what):
+        recs, refs = (rec, ref) if isinstance(ref, list) else ([rec], [ref])
+        if isinstance(ref, list) and (not isinstance(rec, list) or len(rec) != len(ref)):
+            msgs.append(f"{what}: container changed")
+            return
+        for i, (r_, f_) in enumerate(zip(recs, refs)):
+            if isinstance(f_, xr.Dataset):
+                for v in f_.data_vars:
+                    if real.relerr(r_[v].transpose(*f_[v].dims).values, f_[v].values) > 1e-8:
+                        msgs.append(f"{what}: variable {v} not restored")
+            elif real.relerr(r_.transpose(*f_.dims).values, f_.values) > 1e-8:
+                msgs.append(f"{what}: item {i} not restored (rel {real.relerr(r_.transpose(*f_.dims).values, f_.values):.2e})")
+    sc = m.scores()
+    cmp(m.inverse_transform(sc), D, "full-mode reconstruction")
+    cmp(m.inverse_transform(m.scores(normalized=True), normalized=True), D, "full-mode reconstruction from normalized scores")
+    # scalar mode selection == one-element selection, for both settings of the switch; the switch = the mode's norm
+    k = 2
+    for flag in (False, True):
+        s_ = m.scores(normalized=flag)
+        one = m.inverse_transform(s_.sel(mode=[k]), normalized=flag)
+        sca = m.inverse_transform(s_.sel(mode=k), normalized=flag)
+        cmp(sca, one if isinstance(one, list) else one, f"inverse_transform(scores.sel(mode={k}), normalized={flag}) vs the one-element selection")
+    cmp(m.inverse_transform(m.scores(normalized=True).sel(mode=k), normalized=True), m.inverse_transform(sc.sel(mode=k)), "normalized switch for a scalar mode selection")
+    if not c["cplx"] or True:
+        s = xr.DataArray(rng.standard_normal((4, m.data["norms"].size)) + (1j * rng.standard_normal((4, m.data["norms"].size)) if c["cplx"] else 0), dims=("time", "mode"),
+                         coords={"time": np.arange(70, 74), "mode": m.data["norms"].mode.values})
+        back = m.transform(m.inverse_transform(s))
+        if real.relerr(back.transpose("time", "mode").values, s.values) > 1e-7:
+            msgs.append("transform(inverse_transform(s)) != s")
+    return (not msgs), "; ".join(msgs[:3])
+
+
 def bounded_cases(tier, seed):
     rng = np.random.default_rng(seed)
     cases = []
+    for struct, nitems in (("da", 1), ("dataset", 1), ("list", 2), ("list", 3)):
+        for cplx in (False, True):
+            for center, std in ((True, False), (True, True), (False, False)):
+                cases.append(dict(kind="struct", struct=struct, nitems=nitems, cplx=cplx, center=center, std=std, keep=(struct == "list" and center and not std) or (struct == "da" and not cplx and center and not std)))
     for model in ("EOF", "ComplexEOF", "HilbertEOF"):
         for c_, s_, cl, w in itertools.product((True, False), repeat=4):
             if model == "HilbertEOF" and not c_:
@@ -375,9 +434,9 @@ def bounded_cases(tier, seed):
 
 def run_bounded(res, tier, seed):
     for c in bounded_cases(tier, seed):
-        sig = {k: c.get(k) for k in ("model", "center", "std", "coslat", "weights", "alpha", "use_pca", "n_pca")}
+        sig = {k: c.get(k) for k in ("model", "center", "std", "coslat", "weights", "alpha", "use_pca", "n_pca", "kind", "struct", "nitems", "cplx")}
         try:
-            ok, detail = eval_case(c)
+            ok, detail = eval_struct(c) if c.get("kind") == "struct" else eval_case(c)
         except Exception as e:  # noqa: BLE001
             ok, detail = False, f"{type(e).__name__}: {str(e)[:150]}"
             sig["exception"] = type(e).__name__
@@ -385,13 +444,14 @@ def run_bounded(res, tier, seed):
 
 
 def replay(payload):
-    ok, detail = eval_case(payload["payload"])
+    c = payload["payload"]
+    ok, detail = eval_struct(c) if c.get("kind") == "struct" else eval_case(c)
     return ok, f"C03 replay {payload['payload']}: {'ok' if ok else detail}"
 
 
 def run(tier, seed):
     res = Result("C03")
-    res.functions = ["xeofs.preprocessing.scaler:Scaler.fit/transform/inverse_transform_data (inside the real Preprocessor chain)",
+    res.functions = ["xeofs.cross.base_model_cross_set:BaseModelCrossSet public methods (composition of preprocessor/PCA/whitener per field)", "xeofs.preprocessing.scaler:Scaler.fit/transform/inverse_transform_data (inside the real Preprocessor chain)",
                      "xeofs.single.base_model_single_set:BaseModelSingleSet.transform/inverse_transform/components/scores",
                      "xeofs.single.eof:EOF._fit_algorithm/_transform_algorithm/_inverse_transform_algorithm", "xeofs.cross.base_model_cross_set:BaseModelCrossSet.transform/inverse_transform/scores",
                      "xeofs.cross.cpcca:CPCCA._fit_algorithm/_transform_algorithm/_inverse_transform_algorithm/_get_scores",
@@ -405,6 +465,9 @@ def run(tier, seed):
     deductive_scaler(res, agg)
     deductive_single(res, agg)
     deductive_cross(res, agg)
+    # list inputs: every item is cut from its own block of the concatenated matrix and restored value by value (real Concatenator / chain)
+    from props.C02 import deductive as c02_structures
+    c02_structures(res, agg, only_lists=True)
     from props import C16
 
     class Only:
@@ -416,6 +479,8 @@ def run(tier, seed):
                 return self.agg.vc(function, clause, r, config)
             return True
     C16.deductive(res, Only(agg))
+    from vf.contracts import crosschain
+    crosschain.obligations(agg, ("inverse_transform", "components", "scores"))      # cross-set public methods: every field through its own chain, in order
     agg.flush()
     run_bounded(res, tier, seed)
     return res
